@@ -18,7 +18,7 @@ RULE = ("lengths {1,2,3,9,10,11,25,60} x topic mix {own, alternating, foreign-he
 ASSUMPTIONS = ["Redis and RabbitMQ are wire-level fakes (RabbitMQ: FIFO per priority, requeue to original position)",
                "single priority per run (priority order is randomised by design on redis)", "messages deliverable at enqueue time (no delay)"]
 EVAL_COUNTER = "deliveries_judged"
-REQUIRED = ["deliveries_judged", "mode_all", "mode_steady", "mode_reject", "returns_judged", "long_backlogs", "stale_delay_messages", "idle_polls_timed_out", "expired_messages_in_the_queue"]
+REQUIRED = ["deliveries_judged", "mode_all", "mode_steady", "mode_reject", "returns_judged", "long_backlogs", "stale_delay_messages", "idle_polls_timed_out", "expired_messages_in_the_queue", "consume_calls_cancelled"]
 CASE_TIMEOUT = 120
 
 LENGTHS = [1, 2, 3, 9, 10, 11, 25, 60]
@@ -37,6 +37,8 @@ def gen_cases(tier, seed):
             combos = [c for c in combos if c[0] >= 9] + short[:8]
         # polls: the consumer is polled with a timeout on an empty queue (the call is cancelled while idle), bursts arrive later
         combos += [(b, mix, "polls") for b in (2, 3, 7) for mix in (("own", "alt") if tier == "quick" else MIXES)]
+        # cancel: a consume() waiting on an empty queue is cancelled k scheduling quanta after a burst has been enqueued
+        combos += [(3, "own", f"cancel:{k}") for k in (range(0, 30) if tier == "quick" else range(0, 60))]
         reps = 1 if tier == "quick" else 3
         for rep in range(reps):
             for n, mix, mode in combos:
@@ -105,7 +107,7 @@ async def scenario(loop, case, out, stats, fps, samples):
             seq += 1
             return id_
 
-        if mode != "polls":
+        if mode != "polls" and not mode.startswith("cancel"):
             for _ in range(n):
                 await enq()
         # a rabbit consumer with a topic filter and a small prefetch window can be blocked by foreign messages at the
@@ -113,6 +115,8 @@ async def scenario(loop, case, out, stats, fps, samples):
         mu = case["mu"]
         if kind == "rabbit" and mix != "own" and mu is not None and mu < 1000:
             mu = None
+        if mode.startswith("cancel"):
+            mu = None  # (a delivery dropped by a cancelled consume() would otherwise fill a small prefetch window for good)
         cons = mb.get_consumer("q", ["own"], mu, MessageCategory.NORMAL)
         await cons.start()
         delivered = []
@@ -149,6 +153,45 @@ async def scenario(loop, case, out, stats, fps, samples):
                     if rnd.random() < 0.7:
                         await enq()  # something enqueued after the return
                 else:
+                    await mb.ack(key)
+        elif mode.startswith("cancel"):
+            stats["mode_cancel"] += 1
+            k = int(mode.split(":")[1])
+            quantum = (case["latency"] or 0.0) / 4  # loop turns; with wire latency quarter-latency steps (virtual time only moves on timers)
+            for rnd_i in range(3):
+                if kind == "mem":
+                    # the burst is produced by another task while consume() waits
+                    pending = loop.create_task(cons.consume())
+                    await asyncio.sleep(0.02)
+
+                    async def burst():
+                        for _ in range(n):
+                            await enq()
+
+                    other = loop.create_task(burst())
+                else:
+                    # the burst is already in the queue when the consumer (re)subscribes: it arrives back to back
+                    await cons.finish()
+                    await asyncio.sleep(0.15)
+                    for _ in range(n):
+                        await enq()
+                    pending = loop.create_task(cons.consume())
+                    await asyncio.sleep(0.02)
+                    other = loop.create_task(cons.start())
+                for _ in range(k):
+                    await asyncio.sleep(quantum)
+                pending.cancel()
+                try:
+                    got = await pending
+                    delivered.append(got[0].id_)
+                    await mb.ack(got[0])
+                except asyncio.CancelledError:
+                    stats["consume_calls_cancelled"] += 1
+                await other
+                while True:
+                    key = await take()
+                    if key is None:
+                        break
                     await mb.ack(key)
         elif mode == "polls":
             stats["mode_polls"] += 1
@@ -208,6 +251,15 @@ async def scenario(loop, case, out, stats, fps, samples):
             starving = [x for x in undelivered if order[x] < newest_delivered - (14 if mode == "steady" else 0)]
             if starving and mode in ("steady", "all", "polls"):
                 out.append(V("starved", kind, ctx, f"n={n}: {sorted(starving)[:5]} never delivered although messages up to #{newest_delivered} were; backlog kept non-empty"))
+        if mode.startswith("cancel"):
+            snap = rig.snapshot()
+            dropped = sorted(i for i in own if i not in first and snap.get(i) == ["held"])
+            other = sorted(i for i in own if i not in first and snap.get(i) != ["held"])
+            stats["messages_dropped_by_a_cancelled_consume"] += len(dropped)
+            if dropped:
+                out.append(V("starved", kind, "dropped-by-cancelled-consume", f"cancel after {mode.split(':')[1]} quanta: {dropped} taken from the consumer's local queue by the cancelled consume() and never handed out (still marked in flight)"))
+            if other and not dropped:
+                out.append(V("starved", kind, ctx, f"{other} never delivered; state {[snap.get(i) for i in other]}"))
         if mode in ("all", "polls") and set(delivered) != own:
             missing = sorted(own - set(delivered))[:5]
             if missing and not any(v["rule"] == "starved" for v in out):
